@@ -121,8 +121,10 @@ class MergeConsecutiveOp(BaseOp):
         match_df = df_new.loc[:, match_columns]
         remove_groups = self._get_remove_groups(match_df, code_mask)
         if self.set_durations and max(remove_groups) > 0:
-            # onset/duration are text when the column holds n/a: the merged extent is computed numerically
-            df_new[["onset", "duration"]] = df_new[["onset", "duration"]].apply(pd.to_numeric, errors='coerce')
+            # onset/duration are text when the column holds n/a, and integer columns cannot take a fractional
+            # extent: the merged extent is computed on floats
+            df_new[["onset", "duration"]] = df_new[["onset", "duration"]].apply(pd.to_numeric,
+                                                                                    errors='coerce').astype(float)
             self._update_durations(df_new, remove_groups)
         keep_mask = [remove_group == 0 for remove_group in remove_groups]
         df_new = df_new.loc[keep_mask, :].reset_index(drop=True)
